@@ -250,6 +250,17 @@ var storeDecodeUnit = transUnit{Dir: "ddsketch/store", File: "CodeStoreDecode", 
 	},
 	Funcs: []string{"DecodeAndMergeWith"}}
 
+// the sparse store: a Go map from index to weight (exact rationals); every function that ranges over the map
+// takes the iteration-order oracle.  `MergeWith`, `ForEach`, `Bins` and the protobuf methods are closures.
+var sparseUnit = transUnit{Dir: "ddsketch/store", File: "CodeSparse", NS: "DDS.Gen.Sparse", Mode: "rat",
+	Imports:     denseUnit.Imports,
+	ExternTypes: denseUnit.ExternTypes, ExternVars: denseUnit.ExternVars, ExternFuncs: denseUnit.ExternFuncs,
+	Vars: []string{"errUndefinedMinIndex", "errUndefinedMaxIndex"},
+	Funcs: []string{"NewSparseStore", "SparseStore.Add", "SparseStore.AddWithCount", "SparseStore.AddBin",
+		"SparseStore.orderedBins", "SparseStore.Copy", "SparseStore.Clear", "SparseStore.IsEmpty",
+		"SparseStore.MaxIndex", "SparseStore.MinIndex", "SparseStore.TotalCount", "SparseStore.KeyAtRank",
+		"SparseStore.Reweight", "SparseStore.Encode"}}
+
 // identity of a mapping: the tolerance-based equality (for an argument of the receiver's own kind; another kind
 // is `false` by the failed type assertion, which the model states directly) and the binary encoding
 var mapIdUnit = transUnit{Dir: "ddsketch/mapping", File: "CodeMapId", NS: "DDS.Gen.MapId", Mode: "f64",
@@ -274,7 +285,7 @@ var mapIdUnit = transUnit{Dir: "ddsketch/mapping", File: "CodeMapId", NS: "DDS.G
 		"CubicallyInterpolatedMapping.Equals", "CubicallyInterpolatedMapping.Encode"}}
 
 func init() {
-	transUnits = append(transUnits, sketchUnit, datasetUnit, denseUnit, storeDecodeUnit, mapIdUnit)
+	transUnits = append(transUnits, sketchUnit, datasetUnit, denseUnit, storeDecodeUnit, mapIdUnit, sparseUnit)
 }
 
 type trErr struct{ msg string }
@@ -289,6 +300,7 @@ type funcInfo struct {
 	mutated []int      // indexes into allParams() that are written through
 	mutSet  map[*types.Var]bool
 	extern  bool // an interface method or a function of another translated package
+	ord     bool // ranges over a map (directly or through a callee): takes the iteration-order oracle `ord`
 }
 
 func (f *funcInfo) allParams() []*types.Var {
@@ -383,6 +395,11 @@ func (t *tr) leanType(ty types.Type) string {
 		return "List (" + t.leanType(u.Elem()) + ")"
 	case *types.Array:
 		return "List (" + t.leanType(u.Elem()) + ")"
+	case *types.Map:
+		if !isInt(u.Key()) {
+			t.fail(nil, "map with a non-int key")
+		}
+		return "(GoSem.GoMap (" + t.leanType(u.Elem()) + "))"
 	case *types.Named:
 		if u.Obj().Name() == "error" {
 			return "GoErr"
@@ -793,6 +810,10 @@ func (t *tr) expr(e ast.Expr, c *ectx) string {
 	case *ast.CompositeLit:
 		return t.composite(x, c)
 	case *ast.IndexExpr:
+		if mt, ok := t.typeOf(x.X).Underlying().(*types.Map); ok {
+			// a map read never panics: the zero value for a missing key
+			return "(GoSem.mget " + t.expr(x.X, c) + " " + t.expr(x.Index, c) + " " + t.zero(e, mt.Elem()) + ")"
+		}
 		if c.hoists == nil || c.inSC {
 			t.fail(e, "index expression needs a fallible, non-short-circuit context")
 		}
@@ -1159,6 +1180,14 @@ func (t *tr) call(x *ast.CallExpr, c *ectx) string {
 				}
 				return "(" + base + " ++ [" + strings.Join(els, ", ") + "])"
 			case "make":
+				if _, isMap := t.typeOf(x).Underlying().(*types.Map); isMap {
+					return "([] : " + t.leanType(t.typeOf(x)) + ")"
+				}
+				if sl, ok := t.typeOf(x).(*types.Slice); ok && len(x.Args) == 3 {
+					if tv := t.info.Types[x.Args[1]]; tv.Value != nil && constant.Sign(tv.Value) == 0 {
+						return "([] : List (" + t.leanType(sl.Elem()) + "))" // make([]T, 0, cap): the capacity is not modelled
+					}
+				}
 				st, ok := t.typeOf(x).(*types.Slice)
 				if !ok || len(x.Args) != 2 {
 					t.fail(x, "unsupported make")
@@ -1394,6 +1423,9 @@ func (t *tr) apply(fi *funcInfo, args []string) string {
 	if fi.res {
 		s += " fuel"
 	}
+	if fi.ord {
+		s += " ord"
+	}
 	for _, a := range args {
 		s += " " + a
 	}
@@ -1547,6 +1579,9 @@ func (t *tr) assignTo(lhs ast.Expr, rhs string, c *ectx, sc *sctx, k string) str
 			return t.assignTo(l.X, "{ "+inner+" with "+lname(l.Sel.Name)+" := "+rhs+" }", c, sc, k)
 		}
 	case *ast.IndexExpr:
+		if _, isMap := t.typeOf(l.X).Underlying().(*types.Map); isMap && baseIdent(l.X) != nil {
+			return t.assignTo(l.X, "(GoSem.mset "+t.expr(l.X, c)+" "+t.expr(l.Index, c)+" "+rhs+")", c, sc, k)
+		}
 		if id, ok := l.X.(*ast.Ident); ok && sc.monad != "pure" {
 			comb := "GoSem.optR"
 			if sc.monad == "loop" {
@@ -1641,6 +1676,16 @@ func (t *tr) callStmt(x *ast.CallExpr, lhs []ast.Expr, define bool, sc *sctx, k 
 			}
 		}
 	}
+	if id, ok := x.Fun.(*ast.Ident); ok && id.Name == "delete" && len(lhs) == 0 {
+		if _, ok := t.info.Uses[id].(*types.Builtin); ok {
+			v := "(GoSem.mdelete " + t.expr(x.Args[0], c) + " " + t.expr(x.Args[1], c) + ")"
+			return t.wrapHoists(*hs, t.assignTo(x.Args[0], v, c, sc, k), sc)
+		}
+	}
+	if key := t.sortSliceKey(x); key != "" && len(lhs) == 0 {
+		v := "(GoSem.sortOn (fun e => e." + key + ") " + t.expr(x.Args[0], c) + ")"
+		return t.wrapHoists(*hs, t.assignTo(x.Args[0], v, c, sc, k), sc)
+	}
 	if id, ok := x.Fun.(*ast.Ident); ok && id.Name == "copy" && len(lhs) == 0 {
 		if _, ok := t.info.Uses[id].(*types.Builtin); ok {
 			return t.copyStmt(x, c, hs, sc, k)
@@ -1732,6 +1777,62 @@ func (t *tr) callStmt(x *ast.CallExpr, lhs []ast.Expr, define bool, sc *sctx, k 
 	return t.wrapHoists(*hs, body, sc)
 }
 
+// `sort.Slice(x, func(i, j int) bool { return x[i].f < x[j].f })` with an int field f: the field name ("" otherwise)
+func (t *tr) sortSliceKey(x *ast.CallExpr) string {
+	sel, ok := x.Fun.(*ast.SelectorExpr)
+	if !ok || len(x.Args) != 2 {
+		return ""
+	}
+	id, ok := sel.X.(*ast.Ident)
+	if !ok {
+		return ""
+	}
+	pn, ok := t.info.Uses[id].(*types.PkgName)
+	if !ok || pn.Imported().Path() != "sort" || sel.Sel.Name != "Slice" {
+		return ""
+	}
+	fl, ok := x.Args[1].(*ast.FuncLit)
+	if !ok || len(fl.Body.List) != 1 || fl.Type.Params.NumFields() != 2 {
+		t.fail(x, "unsupported sort.Slice comparison")
+	}
+	ret, ok := fl.Body.List[0].(*ast.ReturnStmt)
+	if !ok || len(ret.Results) != 1 {
+		t.fail(x, "unsupported sort.Slice comparison")
+	}
+	be, ok := ret.Results[0].(*ast.BinaryExpr)
+	if !ok || be.Op != token.LSS {
+		t.fail(x, "unsupported sort.Slice comparison")
+	}
+	var names []string
+	for _, f := range fl.Type.Params.List {
+		for _, n := range f.Names {
+			names = append(names, n.Name)
+		}
+	}
+	field := func(e ast.Expr, iv string) string {
+		s, ok := e.(*ast.SelectorExpr)
+		if !ok {
+			return ""
+		}
+		ix, ok := s.X.(*ast.IndexExpr)
+		if !ok {
+			return ""
+		}
+		a, ok1 := ix.X.(*ast.Ident)
+		b, ok2 := x.Args[0].(*ast.Ident)
+		i, ok3 := ix.Index.(*ast.Ident)
+		if !ok1 || !ok2 || !ok3 || a.Name != b.Name || i.Name != iv || !isInt(t.typeOf(s)) {
+			return ""
+		}
+		return s.Sel.Name
+	}
+	f1, f2 := field(be.X, names[0]), field(be.Y, names[1])
+	if f1 == "" || f1 != f2 {
+		t.fail(x, "unsupported sort.Slice comparison")
+	}
+	return lname(f1)
+}
+
 // `copy(dst, src)` as a statement.  `copy(x[a:], x[b:c])` on one slice is a memmove inside it
 // (`GoSem.copyWithin`); otherwise the destination variable receives `GoSem.copySlice dst src`.
 func (t *tr) copyStmt(x *ast.CallExpr, c *ectx, hs *[]hoist, sc *sctx, k string) string {
@@ -1806,7 +1907,11 @@ func (t *tr) isSimple(stmts []ast.Stmt) bool {
 		}
 		ast.Inspect(s, func(m ast.Node) bool {
 			switch e := m.(type) {
-			case *ast.IndexExpr, *ast.SliceExpr:
+			case *ast.IndexExpr:
+				if _, isMap := t.typeOf(e.X).Underlying().(*types.Map); !isMap {
+					ok = false
+				}
+			case *ast.SliceExpr:
 				ok = false
 			case *ast.CallExpr:
 				if tv, isT := t.info.Types[e.Fun]; isT && tv.IsType() {
@@ -1906,6 +2011,12 @@ func (t *tr) assignedOuter(nodes []ast.Node, declaredInside func(types.Object) b
 					} else {
 						add(s.Args[0])
 					}
+				}
+				if _, isB := obj.(*types.Builtin); isB && obj.Name() == "delete" && len(s.Args) == 2 {
+					add(s.Args[0])
+				}
+				if obj != nil && obj.Name() == "Slice" && obj.Pkg() != nil && obj.Pkg().Path() == "sort" && len(s.Args) > 0 {
+					add(s.Args[0])
 				}
 			}
 			return true
@@ -2319,6 +2430,7 @@ func (t *tr) rangeStmt(x *ast.RangeStmt, sc *sctx, k string) string {
 	if sc.monad == "pure" {
 		t.fail(x, "loop in a pure function")
 	}
+	mt, isMap := t.typeOf(x.X).Underlying().(*types.Map)
 	keyName := ""
 	if x.Key != nil {
 		id, ok := x.Key.(*ast.Ident)
@@ -2326,12 +2438,29 @@ func (t *tr) rangeStmt(x *ast.RangeStmt, sc *sctx, k string) string {
 			t.fail(x, "range with a non-identifier index")
 		}
 		if id.Name != "_" {
-			keyName = lname(id.Name) // the index: an extra argument of the recursion, counted up from 0
+			keyName = lname(id.Name) // slice: the index, an extra argument counted up from 0; map: the key
 		}
 	}
-	sl, ok := t.typeOf(x.X).Underlying().(*types.Slice)
-	if !ok {
-		t.fail(x, "range over a non-slice")
+	var elemType string
+	if isMap {
+		elemType = "Int × " + t.leanType(mt.Elem())
+		// the loop may read, update or delete the entry of the current key only (iteration is over a snapshot)
+		ast.Inspect(x.Body, func(m ast.Node) bool {
+			if ix, ok := m.(*ast.IndexExpr); ok {
+				if _, im := t.typeOf(ix.X).Underlying().(*types.Map); im && t.expr(ix.X, &ectx{}) == t.expr(x.X, &ectx{}) {
+					if id, ok := ix.Index.(*ast.Ident); !ok || lname(id.Name) != keyName {
+						t.fail(ix, "the ranged map is accessed at another key inside the loop")
+					}
+				}
+			}
+			return true
+		})
+	} else {
+		sl, ok := t.typeOf(x.X).Underlying().(*types.Slice)
+		if !ok {
+			t.fail(x, "range over a non-slice")
+		}
+		elemType = t.leanType(sl.Elem())
 	}
 	val := "_"
 	if id, ok := x.Value.(*ast.Ident); ok {
@@ -2365,6 +2494,16 @@ func (t *tr) rangeStmt(x *ast.RangeStmt, sc *sctx, k string) string {
 		stNames = append(stNames, lname(v.Name()))
 		stTypes = append(stTypes, t.leanType(v.Type()))
 	}
+	// the body is translated first with a placeholder for the recursive call, so that we know whether it
+	// needs `fuel` / `ord` (calls to fallible or map-ranging functions), which then become parameters
+	const hole = "«REC»"
+	stTuple := tuple(stNames)
+	tail := " «rest» " + strings.Join(stNames, " ")
+	if keyName != "" && !isMap {
+		tail = " «rest» (" + keyName + " + 1) " + strings.Join(stNames, " ")
+	}
+	inner := &sctx{monad: "loop", brk: ".done " + stTuple, cont: hole + tail}
+	body := t.stmts(x.Body.List, inner, hole+tail)
 	rec := name
 	if t.unit.TypeArgs != "" {
 		rec += " " + t.unit.TypeArgs
@@ -2377,29 +2516,25 @@ func (t *tr) rangeStmt(x *ast.RangeStmt, sc *sctx, k string) string {
 	if t.unit.TypeParams != "" {
 		sig.WriteString(" " + t.unit.TypeParams)
 	}
-	needFuel := false
+	if strings.Contains(body, " fuel") {
+		// fuel is not consumed by a range loop (structural recursion); it is handed to the fallible callees
+		rec += " fuel"
+		sig.WriteString(" (fuel : Nat)")
+	}
+	if strings.Contains(body, " ord") {
+		rec += " ord"
+		sig.WriteString(" (ord : GoSem.MapOrder)")
+	}
 	for _, v := range free {
 		if !isState[v] {
 			rec += " " + lname(v.Name())
 			sig.WriteString(" (" + lname(v.Name()) + " : " + t.leanType(v.Type()) + ")")
 		}
 	}
-	stTuple := tuple(stNames)
-	recCall := rec + " «rest» " + strings.Join(stNames, " ")
-	if keyName != "" {
-		recCall = rec + " «rest» (" + keyName + " + 1) " + strings.Join(stNames, " ")
-	}
-	inner := &sctx{monad: "loop", brk: ".done " + stTuple, cont: recCall}
-	body := t.stmts(x.Body.List, inner, recCall)
-	if strings.Contains(body, " fuel") {
-		needFuel = true
-	}
-	if needFuel {
-		t.fail(x, "fallible call with fuel inside a range loop")
-	}
-	sig.WriteString(" : List (" + t.leanType(sl.Elem()) + ")")
+	body = strings.ReplaceAll(body, hole, rec)
+	sig.WriteString(" : List (" + elemType + ")")
 	keyPat := ""
-	if keyName != "" {
+	if keyName != "" && !isMap {
 		sig.WriteString(" → Int")
 		keyPat = keyName + ", "
 	}
@@ -2408,17 +2543,28 @@ func (t *tr) rangeStmt(x *ast.RangeStmt, sc *sctx, k string) string {
 	}
 	sig.WriteString(" → Loop (" + strings.Join(stTypes, " × ") + ") (" + t.retType() + ")\n")
 	sig.WriteString("  | [], " + keyPat + strings.Join(stNames, ", ") + " => .done " + stTuple + "\n")
-	sig.WriteString("  | " + val + " :: «rest», " + keyPat + strings.Join(stNames, ", ") + " =>\n")
+	elemPat := val
+	if isMap {
+		kp := keyName
+		if kp == "" {
+			kp = "_"
+		}
+		elemPat = "(" + kp + ", " + val + ")"
+	}
+	sig.WriteString("  | " + elemPat + " :: «rest», " + keyPat + strings.Join(stNames, ", ") + " =>\n")
 	sig.WriteString(indent(body, "    ") + "\n\n")
 	t.aux.WriteString(sig.String())
 	c, hs := t.newE(sc)
 	xs := t.expr(x.X, c)
+	if isMap {
+		xs = "(GoSem.mrange ord " + xs + ")"
+	}
 	comb := "Loop.elim"
 	if sc.monad == "loop" {
 		comb = "Loop.elimL"
 	}
 	call := rec + " " + xs + " " + strings.Join(stNames, " ")
-	if keyName != "" {
+	if keyName != "" && !isMap {
 		call = rec + " " + xs + " (0 : Int) " + strings.Join(stNames, " ")
 	}
 	return t.wrapHoists(*hs, comb+" ("+call+") (fun "+stTuple+" =>\n"+k+")", sc)
@@ -2540,6 +2686,9 @@ func (t *tr) forStmt(x *ast.ForStmt, sc *sctx, k string) string {
 	}
 	if t.unit.TypeParams != "" {
 		sig.WriteString(" " + t.unit.TypeParams)
+	}
+	if strings.Contains(body, " ord") {
+		t.fail(x, "a for loop whose body ranges over a map (the order oracle is not threaded through for loops)")
 	}
 	for _, v := range ro {
 		sig.WriteString(" (" + lname(v.Name()) + " : " + t.leanType(v.Type()) + ")")
@@ -2680,6 +2829,9 @@ func (t *tr) analyseMutation() {
 							mark(s.Args[0])
 						}
 					}
+					if _, isB := obj.(*types.Builtin); isB && obj.Name() == "delete" && len(s.Args) == 2 {
+						mark(s.Args[0])
+					}
 				}
 				return true
 			})
@@ -2706,7 +2858,11 @@ func (t *tr) analyseRes() {
 			r := false
 			ast.Inspect(fi.decl.Body, func(m ast.Node) bool {
 				switch e := m.(type) {
-				case *ast.ForStmt, *ast.RangeStmt, *ast.IndexExpr, *ast.SliceExpr:
+				case *ast.IndexExpr:
+					if _, isMap := t.typeOf(e.X).Underlying().(*types.Map); !isMap {
+						r = true // (a map read or write never panics)
+					}
+				case *ast.ForStmt, *ast.RangeStmt, *ast.SliceExpr:
 					r = true
 				case *ast.CallExpr:
 					if tv, ok := t.info.Types[e.Fun]; ok && tv.IsType() && len(e.Args) == 1 && t.unit.Mode != "mops" &&
@@ -2735,6 +2891,44 @@ func (t *tr) analyseRes() {
 			})
 			if r {
 				fi.res = true
+				changed = true
+			}
+		}
+	}
+}
+
+// which functions range over a map (directly or through a callee)?
+func (t *tr) analyseOrd() {
+	changed := true
+	for changed {
+		changed = false
+		for _, fi := range t.funcs {
+			if fi.ord {
+				continue
+			}
+			o := false
+			ast.Inspect(fi.decl.Body, func(m ast.Node) bool {
+				switch e := m.(type) {
+				case *ast.RangeStmt:
+					if _, ok := t.typeOf(e.X).Underlying().(*types.Map); ok {
+						o = true
+					}
+				case *ast.CallExpr:
+					var obj types.Object
+					switch f := e.Fun.(type) {
+					case *ast.Ident:
+						obj = t.info.Uses[f]
+					case *ast.SelectorExpr:
+						obj = t.info.Uses[f.Sel]
+					}
+					if callee := t.byObj[obj]; callee != nil && callee.ord {
+						o = true
+					}
+				}
+				return !o
+			})
+			if o {
+				fi.ord = true
 				changed = true
 			}
 		}
@@ -2861,6 +3055,9 @@ func (t *tr) emitFunc(fi *funcInfo) {
 	}
 	if fi.res {
 		sig.WriteString(" (fuel : Nat)")
+	}
+	if fi.ord {
+		sig.WriteString(" (ord : GoSem.MapOrder)")
 	}
 	for _, p := range fi.allParams() {
 		sig.WriteString(" (" + lname(p.Name()) + " : " + t.paramType(fi, p) + ")")
@@ -3004,6 +3201,7 @@ func translateUnit(repo string, u transUnit) (text string, errMsg string) {
 	}
 	t.registerExterns()
 	t.analyseMutation()
+	t.analyseOrd()
 	// fallibility: a variable initialised by a call to a fallible function is fallible; iterate
 	for i := 0; i < 4; i++ {
 		t.analyseRes()
